@@ -34,6 +34,9 @@ def search(rundir, tier, seed, log, only):
         inputs, tags = [only['input']], ['replay']
     else:
         inputs, tags = pc.gen_search.c02_cases(**SIZES[tier])
+        for d in pc.corpus('C02'):
+            inputs.append(d['_bytes'])
+            tags.append('corpus-file')
     out = pc.run_go(rundir, '-c02', inputs, 'c02')
     if len(out) != len(inputs):
         raise RuntimeError('parsevec -c02: %d lines for %d inputs' % (len(out), len(inputs)))
